@@ -474,7 +474,7 @@ def _parse_grade_expr(expr: str, n: int = 16, repo=None):
     return None
 
 
-@rule("C11.grade", props=["C11", "C08", "C04", "C15"], min_instances=4, mutants=[
+@rule("C11.grade", props=["C11", "C08", "C04", "C15"], min_instances=8, mutants=[
     ("keys in canonical order, indices in storage order", ("taperecorder", "        indices_keys = [(idx, k) for idx, k in enumerate(self.keys()) if k in basis_blades]\n        indices, keys = zip(*indices_keys) if indices_keys else (tuple(), tuple())",
                                                             "        keys = tuple(k for k in basis_blades if k in self.keys())\n        indices = tuple(idx for idx, k in enumerate(self.keys()) if k in basis_blades)")),
     ("grade selects the complement", ("taperecorder", "for idx, k in enumerate(self.keys()) if k in basis_blades]", "for idx, k in enumerate(self.keys()) if k not in basis_blades]")),
@@ -490,7 +490,9 @@ def grade(ctx):
     q = f"{TR}.grade"
     fn = ctx.func(q)
     keys = (6, 0, 3, 2, 5, 7)          # storage order e23, e, e12, e2, e13, e123
-    for grades in ((2,), (0, 2), (1, 3), ((2, 3),)):
+    # grade selection is in the set of constructs for which the registered function must EQUAL the plain one, and MultiVector.grade
+    # takes the grades in any order and however often (F26): so does the recorder - raising is not an admissible answer here
+    for grades in ((2,), (0, 2), (1, 3), ((2, 3),), (2, 0), (1, 1), ((3, 1),), (3,)):
         c = f"{q}#{grades}"
         alg = rep_algebra(3)
         rec = Obj("TapeRecorder", {"algebra": alg, "expr": "X", "_keys": keys}, {"keys": lambda: keys})
@@ -500,7 +502,8 @@ def grade(ctx):
         except NoValue as exc:
             raise Unknown(c, str(exc), fn)
         if out[0] == "raise":
-            ctx.ok(c, fn, outcome=f"raises {out[1]}")
+            ctx.violation(c, f"x.grade{grades} inside a registered function raises {out[1]}; the plain function selects the grades "
+                             f"{sorted(set(grades[0] if isinstance(grades[0], tuple) else grades))}", fn)
             continue
         v = out[1]
         if not (isinstance(v, Obj) and v.kind == "TapeRecorder" and isinstance(v.attrs.get("expr"), str)):
